@@ -66,6 +66,10 @@ CHECKS = {
    technique="exhaustive enumeration over every TTL up to a bound plus property-based testing of record lifetime / refresh-mark arithmetic and of cache-flush on record pairs through the component facade under a virtual clock, and stateful simulation of a browsing daemon whose refresh queries are compared with the 80/85/90/95 % marks of every received copy",
    text="Exploration: every TTL 1..=3000 (quick) / 1..=20000 (thorough) x 4 observation patterns enumerated; 2e6 generated observation sequences (expiry boundary, at most one refresh per mark, none after expiry, none before its mark, no mark passed silently, fresh copy restarts); 2e6 generated cache-flush pairs at every age relation around 1000 ms (same/other name, class, interface, RDATA, flush bit, third record of the burst); 2.5e4 simulated histories in which ~5 refresh marks per case are checked on the wire.",
    note="Trusted: component facade (delegation only), simulation hooks, refdns. Exactly 1000 ms of age is left open."),
+ "C08": dict(engine=E2+"+"+E3, design="6/C08",
+   technique="exhaustive enumeration plus property-based testing of the simultaneous-probe comparison (Probe::insert_record / tiebreaking through the component facade) against the RFC 6762 8.2 order computed independently and against itself with the sides swapped; stateful simulation of two or three real daemons contesting the same instance and host name on one link (dense grid of start offsets x probe jitters enumerated, generated beyond that), and of one daemon attacked by a scripted peer at every probe step; every packet of every daemon is decoded independently and judged against the names the daemon held at that moment",
+   text="Exploration: all 79x79 pairs of record sets (size <= 2) x 4 orders enumerated, 1e6 generated pairs of 0-3 records; 3618 enumerated two-daemon duels (offset 0..2000 ms step 10 x 9 jitter pairs x 2 data orders) and 1.2e4 generated duels of 2-3 daemons over 12 instance / 9 host labels; 1.2e4 generated histories with 1-4 injected conflicts or peer probes. Judged: exactly one holder of each contested name, pairwise distinct final names of the documented form, NameChange events, three probes before a new name is claimed, one second of silence after a lost comparison, no response record under a name not (or no longer) held, SRV target and port, answers to PTR/SRV/A/ANY questions afterwards, goodbyes.",
+   note="Trusted: simulation hooks (lock-step gate, virtual clock, captured egress, injected ingress, scripted jitter), component facade, refdns. Two known findings are excluded by signature (escaped instance labels; one-record-type-at-a-time renaming under single-type attacks by a scripted peer)."),
 }
 
 def check_entry(pid, c):
